@@ -2,4 +2,5 @@ import LnnVerif.Model.Arith
 import LnnVerif.Model.Node
 import LnnVerif.Model.PropEngine
 import LnnVerif.Model.Fol
+import LnnVerif.Model.Store
 import LnnVerif.Props.All
